@@ -52,7 +52,7 @@ def main():
     optobjs = {}
     events = []
     eq = None
-    opts = None
+    opts = meshopts = None
     status = {"events": events}
     try:
         for item in job["history"]:
@@ -61,8 +61,9 @@ def main():
             if item == "M":
                 if eq is not None:
                     with E.quiet():
-                        m0 = BoutMesh(eq, opts)
-                        events.append({"ev": "BuildMesh", "arg": "", "input": "", "out": "ok", "changed": 0, "which": "", "pristine": 0, "digest": 0})
+                        m0 = BoutMesh(eq, meshopts)
+                        mc = int(meshopts != opts)
+                        events.append({"ev": "BuildMesh", "arg": "", "input": "", "out": "ok", "changed": mc, "which": "mesh_settings" if mc else "", "pristine": 0, "digest": 0})
                         m0.geometry()
                         events.append({"ev": "Geometry", "arg": "", "input": "", "out": "ok", "changed": 0, "which": "", "pristine": 0, "digest": 0})
                 continue
@@ -74,6 +75,7 @@ def main():
             opts.update(job["optsets"][name])
             if name not in optobjs:
                 optobjs[name] = (dict(opts), dict(opts))
+            meshopts = dict(opts)        # the caller's dictionary for the mesh (compared with opts after BoutMesh(...))
             before = {k: v.copy() for k, v in arrays.items()}
             try:
                 with E.quiet():
@@ -93,8 +95,9 @@ def main():
                            "pristine": 1 if all(np.array_equal(arrays[k], pristine[k]) for k in arrays) else 0, "digest": 0})
         if eq is not None:
             with E.quiet():
-                mesh = BoutMesh(eq, opts)
-                events.append({"ev": "BuildMesh", "arg": "", "input": "", "out": "ok", "changed": 0, "which": "", "pristine": 0, "digest": 0})
+                mesh = BoutMesh(eq, meshopts)
+                mc = int(meshopts != opts)
+                events.append({"ev": "BuildMesh", "arg": "", "input": "", "out": "ok", "changed": mc, "which": "mesh_settings" if mc else "", "pristine": 0, "digest": 0})
                 mesh.geometry()
                 events.append({"ev": "Geometry", "arg": "", "input": "", "out": "ok", "changed": 0, "which": "", "pristine": 0, "digest": 0})
                 fn = os.path.join(outdir, "grid.nc")
